@@ -138,11 +138,10 @@ class Interposer:
         return w.elapsed if w is not None and w.backend != 'keep' else 0
 
     def client_time(self):
-        """time.time(): for the client threads of the active world the simulated time that passed is added"""
-        t = self.real_time()
+        """time.time(): the simulated clock for the client threads of the active world, the real one for everybody else"""
         if getattr(self.tls, 'cid', None) is not None and not getattr(self.tls, 'busy', False):
-            t += self.elapsed()
-        return t
+            return float(NOW + self.elapsed())      # the same clock as file_store.time()
+        return self.real_time()
 
     def lock_of(self, w, p):
         if w.lockdir is None or not isinstance(p, str):
@@ -239,14 +238,35 @@ class Interposer:
             (os.path, 'isfile', self.wrap('isfile', os.path.isfile, c_other('isfile'))),
             (os.path, 'lexists', self.wrap('lexists', os.path.lexists, c_other('lexists'))),
             (os.path, 'getmtime', self.wrap('getmtime', os.path.getmtime, c_other('getmtime'))),
-            (fs, 'exists', self.wrap('exists', fs.exists, c_exists)),
             (fs, 'open', self.wrap('builtin_open', builtins.open, c_bopen)),     # shadows the builtin inside file_store only
-            (fs, 'Popen', FakePopen),
-            (fs, 'time', lambda: float(NOW + ip.elapsed())),
             (_time, 'time', ip.client_time),
         ]
+        import subprocess
+        import types
+        # the helper process is never started here, however file_store spells Popen / time()
+        patches.append((fs, 'Popen', FakePopen) if hasattr(fs, 'Popen') else (subprocess, 'Popen', FakePopen))
+        if not isinstance(getattr(fs, 'time', None), types.ModuleType):
+            patches.append((fs, 'time', lambda: float(NOW + ip.elapsed())))
         self.real_time = _time.time
         self.orig = {'utime': os.utime, 'stat': os.stat}
+        # code that bound a primitive by name (`from os import unlink`, `from os.path import exists`, `from time import time`)
+        # calls the original object, not the attribute patched above: every global of a loaded jug module that IS one of
+        # the original primitives gets the same wrapper
+        import sys as _sys
+        by_orig = {}
+        for m, n, v in patches:
+            o = getattr(m, n, _MISSING)
+            if o is not _MISSING and m in (os, os.path, _time) and callable(o):
+                by_orig[id(o)] = (o, v)
+        seen = set((id(m), n) for m, n, v in patches)
+        for modname, mod in sorted(_sys.modules.items()):
+            if mod is None or not (modname == 'jug' or modname.startswith('jug.')):
+                continue
+            for n, val in list(vars(mod).items()):
+                hit = by_orig.get(id(val))
+                if hit is not None and hit[0] is val and (id(mod), n) not in seen:
+                    patches.append((mod, n, hit[1]))
+                    seen.add((id(mod), n))
         for m, n, v in patches:
             self.saved.append((m, n, getattr(m, n, _MISSING)))
         for m, n, v in patches:
